@@ -208,6 +208,22 @@ func spellToken(r *rand.Rand, s string, v Variations) string {
 	if !v.Encoding {
 		return s
 	}
+	if len(s) >= 200 {
+		// a long token: up to three sparse layers (a handful of possibly nested escapes in a long component)
+		for l := r.IntN(4); l > 0; l-- {
+			s = encodeLayer(r, s, 0.01)
+		}
+		return s
+	}
+	if len(s) > 0 && r.IntN(16) == 0 {
+		// DEEP nesting of one character: "%25252525…2561", 4 to 14 levels (a bound on the number of decoding rounds)
+		i := r.IntN(len(s))
+		e := fmt.Sprintf("%%%02X", s[i])
+		for k := 3 + r.IntN(11); k > 0; k-- {
+			e = "%25" + e[1:]
+		}
+		return s[:i] + e + s[i+1:]
+	}
 	layers := r.IntN(4)
 	p := []float64{0.15, 0.5, 1}[r.IntN(3)]
 	for l := 0; l < layers && len(s) < 200; l++ {
